@@ -1847,6 +1847,22 @@ class Exec:
                 return d.shape[0], (lambda s, k: self.alloc_arr(s, (d.shape[1],), self.lam1(lambda c: self.sel2(d, k, c)), d.elem, d.owner, view_of=v.sid)), None
             if isinstance(v, SeqV):
                 return v.length, (lambda s, k: v.getter(self, s, k)), None
+            if isinstance(v, MaskedV) and self.arr(st, v.arr).rank == 2:
+                # iteration over the rows selected by a boolean mask: the selected rows in increasing order of their index.  The enumeration idx[0..count) of the
+                # True positions gets the characterisation np.where has (A-NP-WHERE); it is kept in the state (ghost __selidx) so that specifications can name it
+                from . import npmodel
+                dv, dm = self.arr(st, v.arr), self.arr(st, v.mask)
+                cnt = npmodel.mask_count(dm)
+                idx = self.fresh("selected_rows", z3.ArraySort(I, I))
+                t, u, k = z3.Ints("t!it u!it k!it")
+                nrow = dv.shape[0]
+                st.pc += [cnt >= 0,
+                          z3.ForAll([t], z3.Implies(z3.And(t >= 0, t < cnt), z3.And(idx[t] >= 0, idx[t] < nrow, z3.Select(dm.data, idx[t])))),
+                          z3.ForAll([t, u], z3.Implies(z3.And(t >= 0, t < u, u < cnt), idx[t] < idx[u])),
+                          z3.ForAll([k], z3.Implies(z3.And(k >= 0, k < nrow, z3.Select(dm.data, k)), z3.Exists([t], z3.And(t >= 0, t < cnt, idx[t] == k))))]
+                st.env["__selidx"] = Tup((idx, cnt))
+                return cnt, (lambda s, k_, _d=dv, _v=v: self.alloc_arr(s, (_d.shape[1],), self.lam1(lambda c: self.sel2(_d, z3.Select(idx, k_), c)), _d.elem, _d.owner,
+                                                                      view_of=_v.arr.sid)), None
             from . import objects
             if isinstance(v, objects.SLRef):
                 return st.heap[v.sid].length, (lambda s, k, _v=v: objects.symlist_get(self, s, _v, k)), None
